@@ -403,9 +403,7 @@ func (db *RockDB) ltrim2(ts int64, key []byte, startP, stopP int64) error {
 			return err
 		}
 	}
-	if llen > 0 && newLen == 0 {
-		db.IncrTableKeyCount(table, -1, wb)
-	}
+	// newLen is 0 only after lDelete above, which has decremented the table key counter already
 	if newLen == 0 {
 		//delete the expire data related to the list key
 		db.delExpire(ListType, key, nil, false, wb)
